@@ -467,8 +467,9 @@ impl Emu<'_> {
                     for r in 0..=18 {
                         st.regs[r] = Word::undef(0x0c10_bbe2_0000 + r as i64);
                     }
-                    // BL overwrites the link register with the return address
-                    st.regs[LR] = Word::def(prog.addr_of(pc + 1) as i64);
+                    // BL overwrites the link register; what it holds after the callee returns is
+                    // unspecified (LR is caller-saved): depending on it is a fault
+                    st.regs[LR] = Word::undef(prog.addr_of(pc + 1) as i64);
                     st.flags.d = false;
                     st.mem.clobber_below(sp);
                     pc += 1;
